@@ -208,11 +208,12 @@ func compareVersionPrerelease(a, b string) int {
 		return -1
 	}
 
-	x := a
-	y := b
+	// NOTE prerelease does not have the leading '-'
+	x := "." + a
+	y := "." + b
 
 	for x != "" && y != "" {
-		x, y = x[1:], y[1:] // skip - or .
+		x, y = x[1:], y[1:] // skip .
 
 		var dx, dy string
 		dx, x = versionNextIdent(x)
@@ -231,14 +232,10 @@ func compareVersionPrerelease(a, b string) int {
 			}
 
 			return 1
-		case ix:
-			if len(dx) < len(dy) {
-				return -1
-			}
-
-			if len(dx) > len(dy) {
-				return 1
-			}
+		case ix && len(dx) < len(dy):
+			return -1
+		case ix && len(dx) > len(dy):
+			return 1
 		case dx < dy:
 			return -1
 		default:
